@@ -6,6 +6,7 @@ package meta
 
 import (
 	"sync/atomic"
+	"unicode/utf8"
 )
 
 // FindSubmatch returns the first match with capture group information.
@@ -249,7 +250,7 @@ func (e *Engine) findAllIndicesLoop(haystack []byte, n int, results [][2]int) []
 		// - "a*" on "ab" returns [[0 1] [2 2]], not [[0 1] [1 1] [2 2]]
 		//nolint:gocritic // badCond: intentional - checking empty match (start==end) at lastMatchEnd
 		if start == end && start == lastMatchEnd {
-			pos++
+			pos = nextPosAfterEmpty(haystack, pos)
 			if pos > len(haystack) {
 				break
 			}
@@ -266,8 +267,8 @@ func (e *Engine) findAllIndicesLoop(haystack []byte, n int, results [][2]int) []
 		// Move position past this match
 		switch {
 		case start == end:
-			// Empty match: advance by 1 to avoid infinite loop
-			pos = end + 1
+			// Empty match: advance by one rune (as regexp does) to avoid an infinite loop
+			pos = nextPosAfterEmpty(haystack, end)
 		case end > pos:
 			pos = end
 		default:
@@ -341,7 +342,7 @@ func (e *Engine) Count(haystack []byte, n int) int {
 		// Skip empty matches at lastNonEmptyEnd (stdlib behavior)
 		//nolint:gocritic // badCond: intentional - checking empty match (start==end) at lastNonEmptyEnd
 		if start == end && start == lastNonEmptyEnd {
-			pos++
+			pos = nextPosAfterEmpty(haystack, pos)
 			if pos > len(haystack) {
 				break
 			}
@@ -358,8 +359,8 @@ func (e *Engine) Count(haystack []byte, n int) int {
 		// Move position past this match
 		switch {
 		case start == end:
-			// Empty match: advance by 1 to avoid infinite loop
-			pos = end + 1
+			// Empty match: advance by one rune (as regexp does) to avoid an infinite loop
+			pos = nextPosAfterEmpty(haystack, end)
 		case end > pos:
 			pos = end
 		default:
@@ -413,7 +414,7 @@ func (e *Engine) FindAllSubmatch(haystack []byte, n int) []*MatchWithCaptures {
 		// Skip empty matches at the end of previous non-empty match (stdlib behavior)
 		//nolint:gocritic // badCond: intentional - checking empty match at lastMatchEnd
 		if matchStart == matchEnd && matchStart == lastMatchEnd {
-			pos++
+			pos = nextPosAfterEmpty(haystack, pos)
 			if pos > len(haystack) {
 				break
 			}
@@ -430,7 +431,7 @@ func (e *Engine) FindAllSubmatch(haystack []byte, n int) []*MatchWithCaptures {
 		// Move position past this match
 		switch {
 		case matchStart == matchEnd:
-			pos = matchEnd + 1
+			pos = nextPosAfterEmpty(haystack, matchEnd)
 		case matchEnd > pos:
 			pos = matchEnd
 		default:
@@ -444,4 +445,15 @@ func (e *Engine) FindAllSubmatch(haystack []byte, n int) []*MatchWithCaptures {
 	}
 
 	return matches
+}
+
+// nextPosAfterEmpty returns the position at which a match loop resumes after an
+// empty match at pos: one rune further, as regexp does (one byte at the end of
+// the input or on invalid UTF-8).
+func nextPosAfterEmpty(haystack []byte, pos int) int {
+	if pos < len(haystack) && haystack[pos] >= utf8.RuneSelf {
+		_, width := utf8.DecodeRune(haystack[pos:])
+		return pos + width
+	}
+	return pos + 1
 }
